@@ -8,50 +8,17 @@ use bio::data_structures::suffix_array::suffix_array;
 use bio_verif_harness::{bytes, usizes, Log, Rng};
 use serde_json::{json, Value};
 
-fn run_one(log: &mut Log, tag: &str, text: &[u8], alpha: &[u8], ks: &[u32]) {
-    let n = text.len();
-    let sent = text[n - 1];
-    let single = text.iter().filter(|&&c| c == sent).count() == 1;
-    if !log.begin(tag, json!({"text": bytes(text), "alpha": bytes(alpha), "single": single as u8})) {
-        return;
-    }
-    let mut sa: Vec<usize> = vec![];
-    let r = log.call("sa", json!({}), || {
-        sa = suffix_array(text);
-        json!({"sa": usizes(&sa)})
-    });
-    if r["st"] != "ok" || sa.len() != n {
-        return;
-    }
-    let mut b: Vec<u8> = vec![];
-    let r = log.call("bwt", json!({"sa": usizes(&sa)}), || {
-        b = bwt(text, &sa);
-        json!({"bwt": bytes(&b)})
-    });
-    if r["st"] != "ok" {
-        return;
-    }
-    let alphabet = Alphabet::new(alpha);
-    log.call("less", json!({"bwt": bytes(&b)}), || {
-        let l = less(&b, &alphabet);
-        json!({"less": usizes(&l)})
-    });
-    // symbols to query: the alphabet plus the sentinel
-    let mut syms: Vec<u8> = alpha.to_vec();
-    if !syms.contains(&sent) {
-        syms.push(sent);
-    }
-    syms.sort();
-    syms.dedup();
-    let absent = syms.iter().any(|c| !text.contains(c));
+/// One `occ` event per sampling rate: the full table Occ::get(r, c), plus the (n, k) arithmetic obligations.
+fn occ_events(log: &mut Log, b: &Vec<u8>, alphabet: &Alphabet, syms: &Vec<u8>, ks: &[u32], absent: bool) {
+    let n = b.len();
     for &k in ks {
         let ku = k as usize;
-        log.call("occ", json!({"bwt": bytes(&b), "k": k, "syms": bytes(&syms)}), || {
-            let occ = Occ::new(&b, k, &alphabet);
+        log.call("occ", json!({"bwt": bytes(b), "k": k, "syms": bytes(syms)}), || {
+            let occ = Occ::new(b, k, alphabet);
             let tab: Vec<Value> = syms
                 .iter()
                 .map(|&c| {
-                    let row: Vec<usize> = (0..b.len()).map(|r| occ.get(&b, r, c)).collect();
+                    let row: Vec<usize> = (0..b.len()).map(|r| occ.get(b, r, c)).collect();
                     usizes(&row)
                 })
                 .collect();
@@ -90,6 +57,56 @@ fn run_one(log: &mut Log, tag: &str, text: &[u8], alpha: &[u8], ks: &[u32]) {
             log.oblige("absent_symbol");
         }
     }
+}
+
+/// Occ on an arbitrary byte string (not necessarily the BWT of a text): the MC domain on the real code.
+fn run_raw(log: &mut Log, s: &[u8], alpha: &[u8], ks: &[u32]) {
+    if !log.begin("raw", json!({"text": bytes(s), "alpha": bytes(alpha), "single": 0, "raw": 1})) {
+        return;
+    }
+    let alphabet = Alphabet::new(alpha);
+    let syms = uniq_sorted(alpha);
+    let absent = syms.iter().any(|c| !s.contains(c));
+    occ_events(log, &s.to_vec(), &alphabet, &syms, ks, absent);
+}
+
+fn run_one(log: &mut Log, tag: &str, text: &[u8], alpha: &[u8], ks: &[u32]) {
+    let n = text.len();
+    let sent = text[n - 1];
+    let single = text.iter().filter(|&&c| c == sent).count() == 1;
+    if !log.begin(tag, json!({"text": bytes(text), "alpha": bytes(alpha), "single": single as u8})) {
+        return;
+    }
+    let mut sa: Vec<usize> = vec![];
+    let r = log.call("sa", json!({}), || {
+        sa = suffix_array(text);
+        json!({"sa": usizes(&sa)})
+    });
+    if r["st"] != "ok" || sa.len() != n {
+        return;
+    }
+    let mut b: Vec<u8> = vec![];
+    let r = log.call("bwt", json!({"sa": usizes(&sa)}), || {
+        b = bwt(text, &sa);
+        json!({"bwt": bytes(&b)})
+    });
+    if r["st"] != "ok" {
+        return;
+    }
+    let alphabet = Alphabet::new(alpha);
+    log.call("less", json!({"bwt": bytes(&b)}), || {
+        let l = less(&b, &alphabet);
+        json!({"less": usizes(&l)})
+    });
+    // symbols to query: the alphabet plus the sentinel
+    let mut syms: Vec<u8> = alpha.to_vec();
+    if !syms.contains(&sent) {
+        syms.push(sent);
+    }
+    syms.sort();
+    syms.dedup();
+    let absent = syms.iter().any(|c| !text.contains(c));
+    occ_events(log, &b, &alphabet, &syms, ks, absent);
     if single {
         log.call("invert", json!({"bwt": bytes(&b)}), || {
             let t = invert_bwt(&b);
@@ -151,6 +168,19 @@ pub fn drive(log: &mut Log) {
         }
     }
     log.oblige("exhaustive_small");
+    // (a') every string over {$,A,C} as a "BWT" (what the MC run explores), all k in 1..=2n
+    let rmax = if log.opts.thorough() { 7 } else { 5 };
+    for l in 1..=rmax {
+        for st in all_strings(b"$AC", l) {
+            case += 1;
+            if !log.mine(case) {
+                continue;
+            }
+            let ks: Vec<u32> = (1..=(2 * l) as u32).collect();
+            run_raw(log, &st, b"$AC", &ks);
+        }
+    }
+    log.oblige("exhaustive_raw_strings");
     // (b) boundary lengths x sampling rates
     let lens: Vec<usize> = if log.opts.thorough() {
         vec![1, 2, 3, 9, 33, 63, 64, 65, 66, 67, 100, 127, 128, 129, 130, 131, 160, 192, 193, 194, 200, 256,
